@@ -152,6 +152,16 @@ Example C10_media_custom :
   accepts_document default_rcfg [EBeginDoc; EVersion 0; EMap; EMarker [97]; ETrue; ENull; EEnd; EEndDoc] = true.
 Proof. vm_compute. repeat split; reflexivity. Qed.
 
+(* a time value the time library does not accept (tagged token) is neither well-formed nor accepted, as a value or as a key *)
+Example C10_invalid_time :
+  wf_doc default_rcfg {| d_pre := []; d_top := VLeaf (ETime [0; 49]) |} = false /\
+  accepts_document default_rcfg (flatten_doc default_rcfg {| d_pre := []; d_top := VLeaf (ETime [0; 49]) |}) = false /\
+  wf_doc default_rcfg {| d_pre := []; d_top := VMap [([], ETime [0; 49], VLeaf ENull)] [] |} = false /\
+  accepts_document default_rcfg (flatten_doc default_rcfg {| d_pre := []; d_top := VMap [([], ETime [0; 49], VLeaf ENull)] [] |}) = false /\
+  wf_doc default_rcfg {| d_pre := []; d_top := VMap [([], ETime [49], VLeaf (ETime [50]))] [] |} = true /\
+  accepts_document default_rcfg (flatten_doc default_rcfg {| d_pre := []; d_top := VMap [([], ETime [49], VLeaf (ETime [50]))] [] |}) = true.
+Proof. vm_compute. repeat split; reflexivity. Qed.
+
 Example C10_tree_bad :
   wf_doc default_rcfg {| d_pre := []; d_top := VEdge (VLeaf ENull) (VLeaf ENull) (VLeaf ETrue) [] |} = false /\
   accepts_document default_rcfg (flatten_doc default_rcfg {| d_pre := []; d_top := VEdge (VLeaf ENull) (VLeaf ENull) (VLeaf ETrue) [] |}) = false /\
